@@ -2,7 +2,8 @@
 (* C13, scenario table: configuration mistakes outside the func/method lifecycle alphabet of Goom.tla
    (non-function target, too few condition arguments, unknown method / symbol, non-pointer or non-interface
    handed to Interface, first callback parameter not *IContext, placeholder too small for the trampoline).
-   A recorded scenario: {mistake, prior ("never" / "same-builder"), outcome, image, target, cause, followup}.
+   A recorded scenario: {mistake, prior ("never" / "same-builder" = the target is mocked / "after-reset" = the target was
+   mocked and reset before, the patch table still remembers it), outcome, image, target, cause, followup}.
    Requirement: rejected at configuration time; the image unchanged; a target not mocked before is still not
    mocked; where goom constructs a typed error the cause chain reaches it; afterwards a correct configuration
    works and Reset restores. *)
@@ -11,7 +12,7 @@ EXTENDS Integers, Sequences, TLC
 Systematic == {"apply-size@2", "apply-size@1of2", "apply-arity-fewer", "apply-result-size", "apply-result-count", "apply-no-result",
                "apply-variadic-size", "method-apply-arity", "method-apply-no-receiver", "method-apply-size", "method-ret-few",
                "method-ret-size", "when-few-variadic", "when-arg-size", "when-arg-size@2", "returns-size@2",
-               "uemethod-unknown", "uefunc-ret-few", "uefunc-ret-size", "iface-ret-size", "iface-ret-few", "iface-apply-size"}
+               "uemethod-unknown", "uefunc-ret-few", "uefunc-ret-size", "iface-ret-size", "iface-ret-few", "iface-apply-size", "origin-unrelocatable"}
 TypedCause == {"when-few", "ret-few", "iface-not-interface", "iface-first-param", "iface-arity"}
 Known == {"non-function", "when-few", "ret-few", "ret-size", "unknown-method", "unknown-symbol", "unknown-symbol-as",
           "iface-non-pointer", "iface-not-interface", "iface-first-param", "iface-arity", "iface-unknown-method",
@@ -19,7 +20,7 @@ Known == {"non-function", "when-few", "ret-few", "ret-size", "unknown-method", "
 Judge(e) == IF e.mistake \notin Known THEN "V:unknown-scenario"
             ELSE IF e.outcome # "rejected" THEN "V:accepted-silently"
             ELSE IF e.image # "ok" THEN "V:image-changed:" \o e.image
-            ELSE IF e.prior = "never" /\ e.target # "orig" THEN "V:unmocked-target-now-behaves-as-" \o e.target
+            ELSE IF e.prior \in {"never", "after-reset"} /\ e.target # "orig" THEN "V:unmocked-target-now-behaves-as-" \o e.target
             ELSE IF e.mistake \in TypedCause /\ e.cause # "typed" THEN "V:cause-chain-not-typed"
             ELSE IF e.followup # "ok" THEN "V:followup-" \o e.followup
             ELSE "ok"
